@@ -49,7 +49,7 @@ theorem normalize_no_cr : ∀ (n : Nat) (bs : Bytes), bs.length ≤ n → CR ∉
 
 /-- **At any pace**: the schedules of the model have no clock; that no timer of the session loop cuts a response that is being streamed is read off the
 source on every run — the Keep-Alive timeout is put around the wait for a request and around nothing else, not around `send` — and exercised in real
-time by the correspondence run (a stream with pauses longer than `OHKAMI_KEEPALIVE_TIMEOUT=1` over loopback TCP must end with its terminating chunk) -/
+time by the correspondence run (a stream with pauses longer than `OHKAMI_KEEPALIVE_TIMEOUT=2` over loopback TCP must end with its terminating chunk) -/
 theorem source_no_timer_cuts_a_stream : Ohkami.Gen.keepAliveBoundsTheWaitOnly = true := by decide
 
 end C17
